@@ -10,4 +10,5 @@ let lookup (p : string) : Model.val0 -> Model.val0 =
   | "C14" -> Model.run_C14
   | "C10" -> Model.run_C10
   | "C15" -> Model.run_C15
+  | "C18" -> Model.run_C18
   | _ -> failwith ("unknown property " ^ p)
